@@ -2,6 +2,7 @@
 import Driver.C11Json
 import PgModel.Geno.Views
 import PgModel.Geno.DictCond
+import PgModel.Geno.Lookup
 open Pg Pg.Geno Pg.GenoJson
 
 partial def nestToJ : Nest → J
@@ -34,6 +35,28 @@ partial def beliefs : BDNA → List J
      | some dp => J.arr [.str (renderId dp.id), match dp.sub with | some i => .int i | none => .null]
      | none => .null) :: (cs.map beliefs).flatten
 
+def lvToJ : LV → J
+  | .none => .null
+  | .one d => .obj [("one", dnaToJ d)]
+  | .many ds => .obj [("many", .arr (ds.map optDnaToJ))]
+
+def optLvToJ : Option LV → J
+  | some v => lvToJ v
+  | none => .str "KeyError"
+
+/-- The look-up tables and every `dna[...]` of one bound DNA. -/
+def lookupsOf (g : Spec) (b : BDNA) : J :=
+  let byId := decisionById g b
+  let named := namedDecisions g b
+  .obj [("by_id", .arr (byId.map fun (k, v) => .arr [.str k, lvToJ v])),
+        ("named", .arr (named.map fun (k, v) => .arr [.str k, lvToJ v])),
+        ("ids", .arr ((decisionIds g).map .str)),
+        ("items", .arr (g.dps.map fun dp =>
+          .arr ([optLvToJ (getItemDp byId dp), optLvToJ (getItem byId named (renderId dp.id))] ++
+            (match dp.name with
+             | some nm => [optLvToJ (getItem byId named nm)]
+             | none => []))))]
+
 def optsGrid : List Opts :=
   [0, 1].flatMap fun kt => [0, 1, 2, 3, 4].flatMap fun vt => [0, 1, 2].map fun mk =>
     { keyType := kt, valueType := vt, multi := mk }
@@ -60,7 +83,8 @@ def viewsOf (g : Spec) (d : DNA) : J :=
                       ("dicts", .arr (optsGrid.map fun o => dictToJ (toDict o b))),
                       ("from_dicts", .arr (optsGrid.map fun o =>
                         optDnaToJ (g.fromDict (o.valueType == 3) (toDict o b)))),
-                      ("dict_conds", .arr (optsGrid.map fun o => .bool (dictCond o (o.valueType == 3) b)))]))
+                      ("dict_conds", .arr (optsGrid.map fun o => .bool (dictCond o (o.valueType == 3) b))),
+                      ("lookup_tables", lookupsOf g b)]))
 
 def pathOfJ (j : J) : Option (List Nat) := j.asArr?.bind (·.mapM J.asNat?)
 
